@@ -269,3 +269,388 @@ def judge(ctx, jl, K, cfg, where, fn):
         ctx.ok(K + ".array-join", "string form of Array (%s)" % cfg, nontrivial=True, sample={"form": "loop", "paths": len(jl.paths)})
         ctx.ok(K + ".array-element", "loop form: null elements contribute nothing, others their own string form (%s)" % cfg, nontrivial=True)
     return True
+
+
+# ======================================================================================================================
+# Emission table of the array string form — shape-independent reading (abstract unrolling over path summaries)
+# ======================================================================================================================
+"""What K4 (array) needs, stated without naming a statement shape: *the sequence of appends to the result buffer as a
+function of the element sequence*.  It is read as a table
+
+      (position of the element: first | later) × (kind of the element: Null | anything else)  →  what is appended
+
+plus what is appended outside any element (must be nothing).  The table is obtained from the path summaries
+(rules/pathsum.py) of the array arm by abstract unrolling: every call of `next()` on the one forward iterator over the
+array payload starts an element; whether that element is the first one is known from the iterator's abstract state on
+the path (fresh → first, advanced → later), not from how the code tests it — a peeled first iteration, an
+`enumerate()` index compared with a constant (evaluated for index 0 / index ≥ 1), a constant-valued local flag are
+the same thing here; loops are continued from their header with the environment of the back edge until the abstract
+state (iterator state, constant-valued locals) repeats; private helpers that receive the buffer or the element are
+read in place with their parameters bound to the caller's expressions.  Nothing is executed."""
+from . import pathsum as _PS
+from .core import expr_mentions as _mentions
+
+_ADAPTORS = re.compile(r"(Iterator::|Iterator>::)(rev|skip|take|filter|filter_map|step_by|chain|zip|peekable|skip_while|take_while|flat_map|flatten|map|cycle|scan|fuse)$")
+_IDENT_ITER = "<I as std::iter::IntoIterator>::into_iter"
+_TRANSPARENT_STR = re.compile(r"Deref>::deref$|::as_str$|as std::convert::AsRef<.*>>::as_ref$|as std::borrow::Borrow<.*>>::borrow$|::as_mut_str$|DerefMut>::deref_mut$")
+_BUF_NEW = re.compile(r"^std::string::String::(new|with_capacity)$")
+_IGNORED = re.compile(r"as std::ops::Drop>::drop$|^serde_json::Value::is_(null|string|number|boolean|array|object)$|::iter$|IntoIterator>::into_iter$|Iterator::enumerate$|Deref>::deref$|::len$|::is_empty$|::size_hint$|String::(capacity|len|reserve|is_empty)$")
+
+
+class Unreadable(Exception):
+    pass
+
+
+def _peel(e):
+    """Strip reference plumbing and payload projections; returns (root expr, [variant names projected through])."""
+    vs = []
+    while True:
+        e = strip_refs(e)
+        if e[0] == "field":
+            e = e[1]
+        elif e[0] == "downcast":
+            vs.append(e[2])
+            e = e[1]
+        elif e[0] == "call" and e[1] and _TRANSPARENT_STR.search(e[1]["path"]) and e[2]:
+            e = e[2][0]
+        else:
+            return e, vs
+
+
+class EmissionTable:
+    """rows: [(position, kinds frozenset, effects, opaque atoms)], frame: effects outside any element,
+    unread: reasons that make the table incomplete."""
+
+    def __init__(self, facts, ts, max_runs=60):
+        self.f, self.ts = facts, ts
+        self.rows, self.frame, self.unread = [], [], []
+        self.buffers, self.results, self.roots, self.call_results = set(), set(), {}, {}
+        self.runs = 0
+        self.max_runs = max_runs
+        known = lambda e, a: "Array" if (a == VALUE and strip_refs(e) == ("arg", 1)) else None
+        try:
+            st0 = {"status": {}, "cur": None, "seg": None}
+            for (st, res) in self._run(ts, 0, {}, st0, known, (ts.key,), top=True):
+                self._close(st)
+                if res is not None:
+                    self.results.add(_PS.canon(strip_refs(res)))
+                if any(v == "advanced" for v in st["status"].values()) or (st["status"] and all(v == "fresh" for v in st["status"].values())):
+                    self.frame.append(("leaves", "returns before the iterator is exhausted"))
+        except Unreadable as e:
+            self.unread.append(str(e))
+        except RecursionError:
+            self.unread.append("too deep")
+
+    # ---- element segments
+    def _close(self, st):
+        seg = st.get("seg")
+        if seg is not None and not seg.get("closed"):
+            seg["closed"] = True
+            self.rows.append(seg)
+
+    def _effect(self, st, eff, atoms):
+        if st["cur"] is None:
+            self.frame.append(eff)
+        else:
+            st["seg"]["effects"].append(eff)
+            st["seg"]["atoms"].update(atoms)
+
+    # ---- iterator over the array payload
+    def _iter_root(self, e):
+        x = strip_refs(e)
+        enum = False
+        while x[0] == "call" and x[1] and (x[1]["path"] == _IDENT_ITER or x[1]["path"].endswith("Iterator::enumerate")) and x[2]:
+            enum = enum or x[1]["path"].endswith("enumerate")
+            x = strip_refs(x[2][0])
+        if x[0] == "call" and x[1] and _ADAPTORS.search(x[1]["path"]):
+            raise Unreadable("the elements come through the iterator adaptor %s" % x[1]["path"].rsplit("::", 1)[1])
+        if not (x[0] == "call" and x[1] and re.search(r"::iter$|IntoIterator>::into_iter$", x[1]["path"]) and x[2]):
+            return None
+        if not _mentions(x[2][0], lambda y: y[0] == "downcast" and y[2] == "Array" and strip_refs(y[1]) == ("arg", 1)):
+            return None
+        src, _ = _peel(x[2][0])
+        if src != ("arg", 1):
+            raise Unreadable("iteration over something derived from the array payload: %s" % show_expr(x[2][0])[:80])
+        return (_PS.canon(x), enum)
+
+    # ---- one function, from `start`, with loops continued from their headers
+    def _run(self, body, start, env, st, known, stack, top=False, seen=None):
+        """yields (state, result expr) for every way of reaching Return of `body`."""
+        self.runs += 1
+        if self.runs > self.max_runs:
+            raise Unreadable("too many loop continuations / helper paths")
+        seen = seen or set()
+        w = _PS.summarize(body, known=known, start=start, env=env, max_paths=400)
+        if w.overflow:
+            raise Unreadable("too many paths in %s" % body.key)
+        for p in w.paths:
+            for st2 in self._events(body, p, list(p.events), 0, self._copy(st), stack):
+                if not p.truncated:
+                    yield st2, p.result
+                    continue
+                header = p.blocks[-1]
+                consts = tuple(sorted((l, _PS.canon(v)) for l, v in p.env.items() if isinstance(v, tuple) and v[0] == "const"))
+                key = (body.key, header, tuple(sorted(st2["status"].items())), st2["cur"] and st2["cur"]["pos"], consts)
+                if key in seen:
+                    self._close(st2)
+                    continue
+                for out in self._run(body, header, p.env, st2, known, stack, seen=seen | {key}):
+                    yield out
+
+    @staticmethod
+    def _copy(st):
+        seg = st["seg"]
+        if seg is not None:
+            seg = dict(seg, effects=list(seg["effects"]), atoms=dict(seg["atoms"]))
+        return {"status": dict(st["status"]), "cur": st["cur"], "seg": seg}
+
+    def _events(self, body, p, evs, i, st, stack):
+        """interpret the events of path p from index i; yields the states at the end of the path (helpers fork)."""
+        while i < len(evs):
+            ev = evs[i]
+            i += 1
+            c, args = ev[1], ev[2]
+            path = c["path"] if c else None
+            if path and path.endswith("::next") and args:
+                root = self._iter_root(args[0])
+                if root is None:
+                    continue
+                rk, enum = root
+                self.roots[rk] = enum
+                if len(self.roots) > 1:
+                    raise Unreadable("more than one iterator over the array payload")
+                out = p.atoms.get(("variant", _PS.canon(("call", c, args, ev[3]))))
+                if out not in ("Some", "None"):
+                    if out is None and i == len(evs) and p.truncated:
+                        raise Unreadable("loop header not at the iterator's next()")
+                    raise Unreadable("the outcome of next() is not tested where it is called")
+                status = st["status"].get(rk, "fresh")
+                if status == "exhausted":
+                    if out == "Some":
+                        return          # infeasible: the iterator has already answered None
+                    continue
+                self._close(st)
+                st = self._copy(st)
+                if out == "None":
+                    st["status"][rk] = "exhausted"
+                    st["cur"], st["seg"] = None, None
+                else:
+                    st["status"][rk] = "advanced"
+                    call = ("call", c, args, ev[3])
+                    st["cur"] = {"pos": "first" if status == "fresh" else "later", "canon": _PS.canon(call), "enum": enum}
+                    st["seg"] = {"pos": st["cur"]["pos"], "canon": st["cur"]["canon"], "enum": enum, "effects": [], "atoms": {}, "where": body.where(ev[3])}
+                    st["seg"]["atoms"].update(p.atoms)
+                continue
+            if path in ("std::string::String::push_str", "std::string::String::push") and len(args) == 2:
+                buf, _ = _peel(args[0])
+                if buf[0] == "call" and buf[1] and _BUF_NEW.search(buf[1]["path"]):
+                    self.buffers.add(_PS.canon(buf))
+                    self._effect(st, self._classify(args[1], st), p.atoms)
+                else:
+                    self._effect(st, ("other", "%s on %s" % (path.rsplit("::", 1)[1], show_expr(buf)[:60])), p.atoms)
+                continue
+            if c is not None and c.get("key") == self.ts.key:
+                continue            # the value is read where it is appended
+            touches = [a for a in args if self._touches(a, st)]
+            if c is not None and c.get("local") and self.f.body(c["key"]) is not None and touches:
+                if c["key"] in stack or len(stack) > 4:
+                    self._effect(st, ("other", "recursive call of %s with %s" % (path, ", ".join(show_expr(strip_refs(a))[:50] for a in args))), p.atoms)
+                    continue
+                callee = self.f.body(c["key"])
+                cenv = {j + 1: a for j, a in enumerate(args)}
+                for (st3, res_) in self._run(callee, 0, cenv, st, None, stack + (c["key"],)):
+                    if res_ is not None:
+                        self.call_results.setdefault(_PS.canon(("call", c, args, ev[3])), set()).add(_PS.canon(strip_refs(res_)))
+                    for fin in self._events(body, p, evs, i, self._copy(st3), stack):
+                        yield fin
+                return
+            if path is None or not _IGNORED.search(path):
+                if c is None or any(self._is_buffer(a) for a in args):
+                    self._effect(st, ("other", "call %s" % (path or "<indirect>")), p.atoms)
+        if st["seg"] is not None:
+            st["seg"]["atoms"].update(p.atoms)
+        yield st
+
+    def _is_buffer(self, a):
+        b, _ = _peel(a)
+        return b[0] == "call" and b[1] is not None and _BUF_NEW.search(b[1]["path"]) is not None
+
+    def _touches(self, a, st):
+        if self._is_buffer(a):
+            return True
+        if st["cur"] is not None and st["cur"]["canon"] in _PS.canon(a):
+            return True
+        return _mentions(a, lambda y: y[0] == "downcast" and y[2] == "Array" and strip_refs(y[1]) == ("arg", 1))
+
+    def _classify(self, x, st):
+        e = strip_refs(x)
+        if e[0] == "const":
+            v = const_value(e[1])
+            if v is None and isinstance(e[1], dict) and "char" in e[1]:
+                v = e[1]["char"]
+            return ("sep", v)
+        root, vs = _peel(e)
+        cur = st["cur"]
+        if root[0] == "call" and root[1] and root[1].get("key") == self.ts.key and root[2]:
+            a, avs = _peel(root[2][0])
+            if cur is not None and a[0] == "call" and _PS.canon(a) == cur["canon"] and not [v for v in avs if v != "Some"]:
+                return ("elem", "form-of-elem")
+            return ("elem", "form of %s" % show_expr(strip_refs(root[2][0]))[:60])
+        if cur is not None and root[0] == "call" and _PS.canon(root) == cur["canon"] and [v for v in vs if v != "Some"] == ["String"]:
+            return ("elem", "payload-String")
+        return ("elem", "other: %s" % show_expr(e)[:60])
+
+
+def _index_truth(key, val, canon, pos):
+    """Is the atom (key=val) about the enumerate index of the element `canon` feasible for an element at `pos`?
+    True / False, or None when the atom is not such a test."""
+    def is_idx(t):
+        return canon in t and not t.startswith("c:")
+    if key[0] == "cmp":
+        _, o, A, B = key
+        cA = int(A[2:]) if re.match(r"^c:-?\d+$", A) else None
+        cB = int(B[2:]) if re.match(r"^c:-?\d+$", B) else None
+        if cA is not None and is_idx(B):          # o(cA, idx)
+            if pos == "first":
+                return ({"Eq": cA == 0, "Lt": cA < 0}[o]) == val
+            if o == "Lt":
+                return (val is True) if cA <= 0 else True
+            return (val is False) if cA <= 0 else True
+        if cB is not None and is_idx(A):          # o(idx, cB)
+            if pos == "first":
+                return ({"Eq": cB == 0, "Lt": 0 < cB}[o]) == val
+            if o == "Lt":
+                return (val is False) if cB <= 1 else True
+            return (val is False) if cB <= 0 else True
+        return None
+    if key[0] == "int" and is_idx(key[1]):
+        if isinstance(val, tuple):
+            return (0 not in val[1]) if pos == "first" else True
+        return (val == 0) if pos == "first" else (val != 0)
+    return None
+
+
+def judge_table(ctx, tab, K, cfg, where, fn):
+    """Verdicts for an emission table.  Returns True when a verdict (pass, violation or undecided) was recorded."""
+    kinds_all = set(tab.f.variants(VALUE))
+    key0 = "string form of Array (%s)" % cfg
+    if not tab.rows and tab.unread:
+        return False
+    viol, und, classes = [], list(tab.unread), set()
+    results = set()
+    for r_ in tab.results:
+        results |= tab.call_results.get(r_, {r_})
+    if len(tab.buffers) > 1 or (results and results != tab.buffers):
+        und.append("the result is not the one buffer that is appended to (%s / %s)" % (sorted(results)[:2], sorted(tab.buffers)[:2]))
+    for eff in tab.frame:
+        if eff[0] == "sep":
+            viol.append(("outside any element", "a separator %r is appended outside any element (leading/trailing separator)" % (eff[1],)))
+        elif eff[0] == "leaves":
+            viol.append(("early exit", "the array arm %s: later elements contribute nothing" % eff[1]))
+        else:
+            und.append("appended outside any element: %s" % (eff[1],))
+    for row in tab.rows:
+        kinds, opaque, feasible = set(kinds_all), [], True
+        for k, val in row["atoms"].items():
+            txt = k[1] if k[0] in ("variant", "pure", "int", "expr") else " ".join(map(str, k[1:]))
+            if k[0] == "variant" and val in ("Some", "None") :
+                continue
+            if row["canon"] not in txt:
+                if k[0] == "variant" and "::next(" in txt:
+                    continue
+                opaque.append(txt[:70])
+                continue
+            if k[0] == "variant" and (val in kinds_all or (isinstance(val, tuple) and val[0] == "not")):
+                kinds &= ({val} if val in kinds_all else (kinds_all - set(val[1])))
+            elif k[0] == "pure" and re.match(r"^serde_json::(Value|value::\{impl#\d+\})::is_(null|string|number|boolean|array|object)\(", txt) and isinstance(val, bool):
+                kd = {"null": "Null", "string": "String", "number": "Number", "boolean": "Bool", "array": "Array", "object": "Object"}[re.match(r"^.*?::is_(\w+)\(", txt).group(1)]
+                kinds &= ({kd} if val else kinds_all - {kd})
+            else:
+                it = _index_truth(k, val, row["canon"], row["pos"]) if row["enum"] else None
+                if it is None:
+                    opaque.append(txt[:70])
+                elif not it:
+                    feasible = False
+        if not feasible or not kinds:
+            continue
+        label = "%s element, %s" % ("null" if kinds == {"Null"} else ("/".join(sorted(kinds)) if len(kinds) < 5 else ("non-null" if "Null" not in kinds else "null-or-other")), row["pos"])
+        if opaque:
+            und.append("%s: decided by %s" % (label, opaque[:2]))
+            continue
+        effects = row["effects"]
+        seps = [e for e in effects if e[0] == "sep"]
+        elems = [e for e in effects if e[0] == "elem"]
+        others = [e for e in effects if e[0] == "other"]
+        if others:
+            und.append("%s: %s" % (label, others[0][1]))
+            continue
+        is_null = kinds == {"Null"}
+        want_sep = 0 if row["pos"] == "first" else 1
+        good = len(seps) == want_sep and all(s_[1] == "," for s_ in seps)
+        if is_null:
+            good = good and not elems
+        elif "Null" in kinds:
+            good = good and not elems and False
+        else:
+            good = good and len(elems) == 1 and (elems[0][1] == "form-of-elem" or (elems[0][1] == "payload-String" and kinds == {"String"}))
+            if seps and elems:
+                good = good and effects.index(seps[0]) < effects.index(elems[0])
+        classes.add((is_null, row["pos"]))
+        if not good:
+            viol.append((label, "array string form, %s: appends separators %s and element forms %s; expected %s separator and %s" % (
+                label, [s_[1] for s_ in seps], [e[1] for e in elems], "no" if want_sep == 0 else "one \",\"", "nothing else" if is_null else "the element's own string form once")))
+    for cls in ((True, "first"), (True, "later"), (False, "first"), (False, "later")):
+        if cls not in classes and not viol and not und:
+            und.append("no readable case for (null element=%s, %s)" % cls)
+    seen = set()
+    for label, msg in viol:
+        if label not in seen:
+            seen.add(label)
+            ctx.fail(K + ".array-join", "string form of Array|%s (%s)" % (label, cfg), msg, where=where, fn=fn)
+    if viol:
+        return True
+    if und:
+        ctx.unread(K + ".array-join", key0, "array string form not fully readable as an emission table: %s" % "; ".join(und[:3]), where=where, fn=fn)
+        return True
+    ctx.ok(K + ".array-join", key0, nontrivial=True, sample={"form": "emission table", "rows": len(tab.rows)})
+    ctx.ok(K + ".array-element", "emission table: null elements contribute nothing, others their own string form (%s)" % cfg, nontrivial=True)
+    return True
+
+
+def shared_state_across_nesting(facts, ts):
+    """Positive evidence that an array element's contribution is not a function of that element alone: a helper in
+    the array arm's reach (not through the string-form function) calls itself with the payload of an Array element
+    *and* forwards one of its own `&mut` parameters that is not the output text (a position flag, a counter, the list
+    of slots) — the nested array's elements are enumerated into the enclosing array's separator state / slot list,
+    so the nested array does not contribute its own string form (an empty nested array loses its slot).
+    Returns the description or None."""
+    seen, todo = set(), [c["key"] for _, t in ts.calls() for c in [callee_of(t)] if c and c.get("local") and c.get("key") != ts.key]
+    while todo:
+        k = todo.pop()
+        if k in seen or k == ts.key:
+            continue
+        seen.add(k)
+        b = facts.body(k)
+        if b is None:
+            continue
+        for bi, t in b.calls():
+            c = callee_of(t)
+            if not c or not c.get("local"):
+                continue
+            if c.get("key") != k:
+                todo.append(c["key"])
+                continue
+            payload = [a for a in t["args"] if expr_mentions_array_payload(b, a)]
+            fwd = []
+            for a in t["args"]:
+                e = strip_refs(b.trace(a))
+                if e[0] == "arg" and b.local_ty(e[1]).startswith("&mut ") and "String" not in b.local_ty(e[1]):
+                    fwd.append(b.local_ty(e[1]))
+            if payload and fwd:
+                return "%s enumerates the elements of a nested array into the enclosing array's state (recursive call on the element's payload forwarding %s): an array element does not contribute its own string form" % (k.split("::", 1)[1], ", ".join(fwd))
+    return None
+
+
+def expr_mentions_array_payload(b, a):
+    from .core import expr_mentions
+    return expr_mentions(b.trace(a), lambda y: y[0] == "downcast" and y[2] == "Array")
